@@ -65,6 +65,7 @@ _OOO_NAMESPACES = {
     "xsi": "http://www.w3.org/2001/XMLSchema-instance",
 }
 _NUMBER_COLUMNS_REPEATED = "{" + _OOO_NAMESPACES["table"] + "}number-columns-repeated"
+_NUMBER_ROWS_REPEATED = "{" + _OOO_NAMESPACES["table"] + "}number-rows-repeated"
 _TEXT_C = "{" + _OOO_NAMESPACES["text"] + "}c"
 _TEXT_LINE_BREAK = "{" + _OOO_NAMESPACES["text"] + "}line-break"
 _TEXT_S = "{" + _OOO_NAMESPACES["text"] + "}s"
@@ -293,7 +294,21 @@ def ods_rows(source_ods_path, sheet=1):
     location = errors.Location(source_ods_path, has_cell=True, has_sheet=True)
     for _ in range(sheet - 1):
         location.advance_sheet()
-    for table_row in _findall(table_element, "table:table-row", namespaces=_OOO_NAMESPACES):
+    table_rows = list(_findall(table_element, "table:table-row", namespaces=_OOO_NAMESPACES))
+    for table_row_index, table_row in enumerate(table_rows):
+        repeated_rows_text = table_row.attrib.get(_NUMBER_ROWS_REPEATED, "1")
+        try:
+            repeated_row_count = int(repeated_rows_text)
+            if repeated_row_count < 1:
+                raise errors.DataFormatError(
+                    "table:number-rows-repeated is %s but must be at least 1" % _compat.text_repr(repeated_rows_text),
+                    location,
+                )
+        except ValueError:
+            raise errors.DataFormatError(
+                "table:number-rows-repeated is %s but must be an integer" % _compat.text_repr(repeated_rows_text),
+                location,
+            )
         row = []
         for table_cell in _findall(table_row, "table:table-cell", namespaces=_OOO_NAMESPACES):
             repeated_text = table_cell.attrib.get(_NUMBER_COLUMNS_REPEATED, "1")
@@ -316,8 +331,14 @@ def ods_rows(source_ods_path, sheet=1):
             )
             row.extend([cell_value] * repeated_count)
             location.advance_cell(repeated_count)
-        yield row
-        location.advance_line()
+        is_last_table_row = table_row_index == len(table_rows) - 1
+        if is_last_table_row and not any(row):
+            # Spreadsheet applications pad sheets with a final run of up to a million empty filler rows, which
+            # cannot be told apart from actual empty rows. Keep treating them as a single empty row.
+            repeated_row_count = 1
+        for _ in range(repeated_row_count):
+            yield list(row)
+            location.advance_line()
 
 
 def fixed_rows(fixed_source, encoding, field_name_and_lengths, line_delimiter="any"):
